@@ -229,7 +229,9 @@ def normal_jobs(r, n: int, prefix: str, max_boards: int = 3) -> List[tuple]:
         cfg = {'boards': boards, 'seed': r.randrange(1 << 30), 'styles': styles,
                'vary': k % 4 != 3, 'policy_spec': POLICIES[k % len(POLICIES)],
                'teams': (rand_id(r).strip() or 'a', rand_id(r).strip() or 'b'),
-               'twice': k % 8 == 6}
+               'twice': k % 8 == 6,
+               # the command line ends the process when Server.run returns
+               'exit_after_run': k % 4 == 1}
         if k % 9 == 4:
             # team names outside ASCII
             cfg['teams'] = (r.choice(['Équipe Zürich', '東京', 'Ünïcødé']) + rand_id(r).strip(),
